@@ -248,7 +248,9 @@ CLAIMED["C07"] = dict(
          "dimensionless (log_scale: GeV). Hence each contribution is a function of mass ratios times "
          "m_mu^2/M^2-type prefactors -- the structural reason for the 1/k^2 law -- and a mass in place of a "
          "squared mass, a missing 1/m^2 or the log of a dimensionful quantity is reported as a unit error at "
-         "the offending sub-expression. The two-loop uncertainty is a constant floor plus |2L(a)| terms.",
+         "the offending sub-expression. The pole-mass slots read by the formulas are only those the model "
+         "refreshes unconditionally (not the fill-if-empty SUSY slots, which would keep an earlier point's "
+         "masses). The two-loop uncertainty is a positive constant plus positive multiples of |2L(a)| terms.",
     note=TRUST + "This is a necessary condition only: it proves homogeneity under a joint rescaling of all "
          "dimensionful quantities (SM masses included). The size of the O(MZ^2/M_SUSY^2) remainder and of the "
          "logarithms is numerical and not decided.",
@@ -295,6 +297,25 @@ CLAIMED["C01"] = dict(
          "f_S and F3; rounding for x -> 0+ and x -> 1e12. R4 is an error model, not a proof of 1e-7. One "
          "genuine defect (finite values for tiny negative arguments) was repaired.",
     ref="3 C01")
+
+CLAIMED["C02"] = dict(
+    category="other",
+    technique="AST rule (sort-first over a verified sorting network), units inference for homogeneity, rational "
+              "normal forms against math/ffunctions.m, exact (bivariate) series and symbolic derivatives for the "
+              "degenerate branches, scale-invariance test of regime conditions",
+    text="Fa, Fb, FPZ, FSZ, FCWl, Ixyz/Iabc, Phi, Phi/lambda^2 sort their symmetric arguments with a verified "
+         "sorting network before any other use, hence are exactly permutation invariant; lambda^2 is the "
+         "symmetric Kaellen polynomial; Iabc, Ixyz, Phi, Phi/lambda^2, lambda^2 are homogeneous of the "
+         "documented degree; the generic branch of Fa, Fb, FPZ, FSZ, FCWl, FCWu, FCWd, f_CSd, f_CSu, Ixy equals "
+         "the definition in math/ffunctions.m identically; every degenerate branch is the exact limit or "
+         "expansion of that generic form (x f' - f for the Barr-Zee functions incl. value and slope at 1/4 and "
+         "the large-x series of FSZ; the (y-x)^2, (x-1)^2 and (1,1) expansions of Fa, Fb, Ixy with all "
+         "coefficients); the test that selects an equal-argument expansion is scale free; zero arguments "
+         "return 0.",
+    note=TRUST + "NOT decided: the accuracy figures as numbers; phi_pos/phi_neg/luv (the dilogarithm/Clausen forms "
+         "of Phi) against Phi's definition; the limits inside phi_over_y; continuity between regimes beyond "
+         "the verified expansion orders. One genuine defect (absolute equality test in Fa/Fb) was repaired.",
+    ref="3 C02")
 
 NOT_APPLICABLE = {
     "C03": "numerical agreement of one-loop results with an independent higher-precision evaluation over all "
